@@ -10,6 +10,7 @@ pub fn m_strategy(min: usize, max: usize) -> impl Strategy<Value = usize> {
         .cloned()
         .filter(|x| *x >= min && *x <= max)
         .collect();
+    let special = if special.is_empty() { vec![min, max] } else { special };
     prop_oneof![
         3 => prop::sample::select(special),
         2 => min..=max.min(min + 16),
@@ -87,7 +88,7 @@ pub fn kind_strategy() -> impl Strategy<Value = Kind> {
 pub fn ss_params(m_hint: usize) -> impl Strategy<Value = SsParams> {
     let b = prop_oneof![
         3 => prop::sample::select(vec![1.001f64, 1.01, 1.1, 1.2, 1.5, 2.0]),
-        1 => Just(1.0001f64),
+        1 => prop::sample::select(vec![1.0001f64, 1.0000001]),
         2 => log_uniform(-4.0, 0.0).prop_map(|d| 1.0 + d),
     ];
     (b, prop_oneof![3 => Just(0u8), 1 => Just(1u8), 1 => Just(2u8)], 0.05f64..50.0, 2u64..60, any::<bool>()).prop_map(move |(b, mode, a_free, q_small, big_q)| {
@@ -168,7 +169,29 @@ pub fn item_set(nmin: usize, nmax: usize) -> impl Strategy<Value = Vec<u64>> {
             (0..n as u64).map(|i| base + i).collect()
         } else {
             // distinct by construction: an odd-multiplier bijection of consecutive integers
-            (0..n as u64).map(|i| splitmix64(seed.wrapping_add(i))).collect::<std::collections::BTreeSet<u64>>().into_iter().collect()
+            let mut set: std::collections::BTreeSet<u64> = (0..n as u64).map(|i| splitmix64(seed.wrapping_add(i))).collect();
+            // one set in four also holds edge labels: with the crate's no-op hasher the hash value of a u64 item is the item with its
+            // bytes swapped (little endian), so both the raw edge values and their byte-swapped forms are included (hash values 0, 1, 2,
+            // all-ones, all-ones - 1, ... are reached exactly)
+            if seed % 4 == 0 && n >= 2 {
+                const EDGES: [u64; 8] = [0, 1, 2, u64::MAX, u64::MAX - 1, u32::MAX as u64, 1u64 << 63, 3];
+                let pick = (seed >> 8) % 4;
+                for (i, e) in EDGES.iter().enumerate() {
+                    if pick == 0 || i < 2 + pick as usize * 2 {
+                        set.insert(*e);
+                        set.insert(e.swap_bytes());
+                    }
+                }
+                while set.len() > n.max(4) {
+                    // keep the size: drop a middle element, never an edge label
+                    let victim = *set.iter().nth(set.len() / 2).unwrap();
+                    if EDGES.contains(&victim) || EDGES.contains(&victim.swap_bytes()) {
+                        break;
+                    }
+                    set.remove(&victim);
+                }
+            }
+            set.into_iter().collect()
         }
     })
 }
